@@ -7,10 +7,10 @@
 (*            slashes; a directory d lists exactly the keys below "d/".    *)
 (*            Independent of both implementations.                         *)
 (*  Local*  : transcription of LocalStorageBackend                         *)
-(*            (storage_backend.py:161-383) over an abstract file system    *)
+(*            (storage_backend.py:161-391) over an abstract file system    *)
 (*            (files + directories that were ever created).                *)
 (*  S3*     : transcription of S3StorageBackend (storage_backend.py:       *)
-(*            511-851) over a strongly consistent object store (what the   *)
+(*            519-867) over a strongly consistent object store (what the   *)
 (*            fake S3 implements: exact-key GET/HEAD/PUT/DELETE, listing   *)
 (*            by raw string prefix in key order).                          *)
 (*                                                                         *)
@@ -18,12 +18,13 @@
 (* strings), so "list by raw string prefix" is modelled literally.         *)
 (*                                                                         *)
 (* Flags (constants) - the specification models the code AS IT IS with     *)
-(*   S3ListRaw = TRUE   list_files passes Prefix=_get_s3_key(dir) without  *)
-(*                      a trailing "/" (storage_backend.py:765,771): keys  *)
-(*                      of sibling directories sharing the name as a       *)
-(*                      string prefix leak into the listing (finding       *)
-(*                      C20-s3-list-sibling-prefix).  FALSE = the repair   *)
-(*                      (Prefix = "<dir>/").                               *)
+(*   S3ListRaw = FALSE  list_files passes Prefix="<_get_s3_key(dir)>/"      *)
+(*                      (storage_backend.py:773-781, since /repo 5e63743). *)
+(*                      TRUE models the former defect (finding             *)
+(*                      C20-s3-list-sibling-prefix): Prefix without the    *)
+(*                      trailing "/", so keys of sibling directories       *)
+(*                      sharing the name as a string prefix leak into the  *)
+(*                      listing - kept as a must-fail companion.           *)
 (*   S3ExistsAlwaysLists = FALSE.  TRUE models the mutant "exists falls    *)
 (*                      back to a prefix listing for every key" (anti-     *)
 (*                      vacuity companion).                                *)
@@ -80,61 +81,62 @@ RefDelete(S, p)      == [S EXCEPT ![KeyOf(p)] = Absent]
 LResolve(p) == RStrip(LStrip(p))
 LIsFile(L, rp) == rp \in Keys /\ L.files[rp].present
 LIsDir(L, rp)  == rp = "" \/ rp \in L.dirs
-\* exists (326-328): os.path.exists - true for files AND directories
+\* exists (334-336): os.path.exists - true for files AND directories
 LocalExists(L, p) == LET rp == LResolve(p) IN LIsFile(L, rp) \/ LIsDir(L, rp)
 \* read_file (214-217): open(...).read(); FileNotFoundError when absent (IsADirectoryError for a directory)
 LocalRead(L, p) == LET rp == LResolve(p) IN
   IF LIsFile(L, rp) THEN RRead(TRUE, L.files[rp].c)
   ELSE IF LIsDir(L, rp) THEN [r |-> "isdir", c |-> ""] ELSE RRead(FALSE, "")
-\* get_size (372-374) / get_modified_time (376-378): os.path.getsize / getmtime
+\* get_size (380-382) / get_modified_time (384-386): os.path.getsize / getmtime
 LocalSize(L, p) == LET rp == LResolve(p) IN
   IF LIsFile(L, rp) THEN RNum(TRUE, Len(L.files[rp].c))
   ELSE IF LIsDir(L, rp) THEN [r |-> "isdir", n |-> 0] ELSE RNum(FALSE, 0)
 LocalMtime(L, p) == LET rp == LResolve(p) IN
   IF LIsFile(L, rp) THEN RNum(TRUE, L.files[rp].t)
   ELSE IF LIsDir(L, rp) THEN [r |-> "isdir", n |-> 0] ELSE RNum(FALSE, 0)
-\* list_files (330-361): [] when the resolved prefix does not exist, else os.walk below it,
+\* list_files (338-369): [] when the resolved prefix does not exist, else os.walk below it,
 \* paths relative to the base.  Walking a plain file yields nothing.
 LocalList(L, d) == LET rd == LResolve(d) IN
   IF ~(LIsFile(L, rd) \/ LIsDir(L, rd)) THEN {}
   ELSE IF LIsFile(L, rd) THEN {}
   ELSE {k \in Keys : L.files[k].present /\ (rd = "" \/ StartsWith(k, rd \o "/"))}
-\* write_file (228-304): makedirs(dirname) + temp file + os.replace
+\* write_file (228-312): makedirs(dirname) + temp file + os.replace
 LocalWrite(L, p, c, t) == LET rp == LResolve(p) IN
   [files |-> [L.files EXCEPT ![rp] = File(c, t)], dirs |-> L.dirs \cup Ancestors(rp)]
-\* delete_file (363-366): remove if it exists (directories stay)
+\* delete_file (371-374): remove if it exists (directories stay)
 LocalDelete(L, p) == LET rp == LResolve(p) IN
   IF LIsFile(L, rp) THEN [L EXCEPT !.files[rp] = Absent] ELSE L
 
 (* ======================== S3StorageBackend ============================ *)
 \* O : [FullKeys -> File/Absent], FullKeys = the S3 keys of the model's Keys.
-Pfx == RStrip(TablePrefix)                                   \* __init__ (531): prefix.rstrip("/")
-\* _get_s3_key (568-576)
+Pfx == RStrip(TablePrefix)                                   \* __init__ (539): prefix.rstrip("/")
+\* _get_s3_key (576-584)
 S3Key(p) == LET q == LStrip(p) IN IF Pfx # "" THEN Pfx \o "/" \o q ELSE q
 FullKeys == {S3Key(k) : k \in Keys}
-\* list_files (778-781): strip "<prefix>/" from a listed key
+\* list_files (794-797): strip "<prefix>/" from a listed key
 S3Rel(key) == IF Pfx # "" /\ StartsWith(key, Pfx \o "/") THEN SubSeq(key, Len(Pfx) + 2, Len(key)) ELSE key
 
 \* the object store: exact-key lookup, listing by raw string prefix
 StoreHas(O, key)      == key \in DOMAIN O /\ O[key].present
 StoreList(O, prefix)  == {k \in DOMAIN O : O[k].present /\ StartsWith(k, prefix)}
 
-\* exists (722-754): HEAD; 404 -> only keys written with a trailing "/" fall back to a listing
+\* exists (730-762): HEAD; 404 -> only keys written with a trailing "/" fall back to a listing
 S3Exists(O, p) == LET key == S3Key(p) IN
   IF StoreHas(O, key) THEN TRUE
   ELSE IF ~EndsWith(key, "/") /\ ~S3ExistsAlwaysLists THEN FALSE
   ELSE StoreList(O, key) # {}
-\* read_file (578-602): GET; NoSuchKey -> FileNotFoundError
+\* read_file (586-610): GET; NoSuchKey -> FileNotFoundError
 S3Read(O, p) == LET key == S3Key(p) IN IF StoreHas(O, key) THEN RRead(TRUE, O[key].c) ELSE RRead(FALSE, "")
-\* get_size (806-822) / get_modified_time (824-842): HEAD; 404 -> FileNotFoundError
+\* get_size (822-838) / get_modified_time (840-858): HEAD; 404 -> FileNotFoundError
 S3Size(O, p)  == LET key == S3Key(p) IN IF StoreHas(O, key) THEN RNum(TRUE, Len(O[key].c)) ELSE RNum(FALSE, 0)
 S3Mtime(O, p) == LET key == S3Key(p) IN IF StoreHas(O, key) THEN RNum(TRUE, O[key].t) ELSE RNum(FALSE, 0)
-\* list_files (756-786): paginate(Prefix=_get_s3_key(prefix)), every page, prefix stripped
+\* list_files (764-802): s3_prefix = _get_s3_key(prefix), "/" appended unless empty or already there
+\* (780-781), paginate(Prefix=s3_prefix), every page, table prefix stripped
 S3ListPrefix(d) == LET key == S3Key(d) IN
-  IF S3ListRaw THEN key
-  ELSE IF key # "" /\ ~EndsWith(key, "/") THEN key \o "/" ELSE key      \* the repair
+  IF S3ListRaw THEN key                                                 \* the former defect
+  ELSE IF key # "" /\ ~EndsWith(key, "/") THEN key \o "/" ELSE key
 S3List(O, d) == {S3Rel(k) : k \in StoreList(O, S3ListPrefix(d))}
-\* write_file (638-664): PUT; delete_file (788-800): DELETE (idempotent)
+\* write_file (646-672): PUT; delete_file (804-816): DELETE (idempotent)
 S3Write(O, p, c, t) == [O EXCEPT ![S3Key(p)] = File(c, t)]
 S3Delete(O, p)      == [O EXCEPT ![S3Key(p)] = Absent]
 
